@@ -18,21 +18,98 @@ import (
 
 var tickEpoch = time.Unix(1_700_000_000, 0)
 
+// tickClock is the scripted resource.Clock of the models whose rules mention time.  It only moves when the
+// harness advances it.  arm() makes it STEPPED: the next caller of Now() takes its instant and is then held
+// inside Now() until released, which lets the harness interpose another operation exactly at "the call has
+// read the clock but not yet committed" (a goroutine descheduled right after reading the clock).
 type tickClock struct {
-	mu  sync.Mutex
-	now int
+	mu      sync.Mutex
+	now     int
+	armed   bool
+	held    chan int      // receives the instant the held caller took
+	release chan struct{} // closed to let the held caller go on
 }
 
 func (c *tickClock) Now() time.Time {
 	c.mu.Lock()
-	defer c.mu.Unlock()
-	return concTick(c.now)
+	t := c.now
+	if !c.armed {
+		c.mu.Unlock()
+		return concTick(t)
+	}
+	c.armed = false
+	held, release := c.held, c.release
+	c.mu.Unlock()
+	held <- t
+	<-release
+	return concTick(t)
 }
 func (c *tickClock) advance(dt int) int {
 	c.mu.Lock()
 	defer c.mu.Unlock()
 	c.now += dt
 	return c.now
+}
+func (c *tickClock) current() int { return c.advance(0) }
+
+// arm: the next Now() is held.  held yields the instant it took; release lets it continue.
+func (c *tickClock) arm() (held <-chan int, release func()) {
+	c.mu.Lock()
+	defer c.mu.Unlock()
+	c.armed = true
+	c.held = make(chan int, 1)
+	c.release = make(chan struct{})
+	rel := c.release
+	return c.held, func() { close(rel) }
+}
+func (c *tickClock) disarm() {
+	c.mu.Lock()
+	defer c.mu.Unlock()
+	c.armed = false
+}
+
+// during runs outer in its own goroutine with the clock armed.  If outer reads the clock it is held there,
+// between (given the instant it took) runs on another goroutine, then outer is released and awaited: at >= 0.
+// If outer finishes without reading the clock, between is not run: at = -1.
+// ok = false: outer was holding a lock between needs when it read the clock (between did not finish while
+// outer was held); outer is released, both are awaited, and the caller should not judge this step.
+func (c *tickClock) during(outer func(), between func(at int)) (at int, ok bool) {
+	held, release := c.arm()
+	done := make(chan struct{})
+	go func() {
+		defer close(done)
+		outer()
+	}()
+	wait := func(ch <-chan struct{}, what string) {
+		select {
+		case <-ch:
+		case <-time.After(30 * time.Second):
+			hx.Fatal("stepped clock: %s did not finish", what)
+		}
+	}
+	select {
+	case at = <-held:
+		bdone := make(chan struct{})
+		go func() {
+			defer close(bdone)
+			between(at)
+		}()
+		select {
+		case <-bdone:
+			ok = true
+		case <-time.After(3 * time.Second):
+		}
+		release()
+		wait(bdone, "the interposed call")
+		wait(done, "the held call")
+		return at, ok
+	case <-done:
+		c.disarm()
+		return -1, true
+	case <-time.After(30 * time.Second):
+		hx.Fatal("stepped clock: the call neither read the clock nor finished")
+	}
+	return -1, false
 }
 func concTick(t int) time.Time { return tickEpoch.Add(time.Duration(t) * time.Second) }
 
@@ -76,9 +153,12 @@ func absReadingOf(r *traits.MeterReading) absReading {
 }
 
 type meterOp struct {
-	Op string `json:"op"`
-	Dt int    `json:"dt"`
-	V  int    `json:"v"`
+	Op    string `json:"op"` // Record | Reset | RecordDuring
+	Dt    int    `json:"dt"`
+	V     int    `json:"v"`
+	Inner string `json:"inner"` // RecordDuring: what the other client does while the recorder is held: Reset | Record | None
+	V2    int    `json:"v2"`
+	Dt2   int    `json:"dt2"`
 }
 type meterWalk struct {
 	N   int `json:"n"`
@@ -96,6 +176,8 @@ type meterObs struct {
 	HasInit bool       `json:"hasInit"`
 	Now     int        `json:"now"`
 	V       int        `json:"v"`
+	Conc    bool       `json:"conc"`  // the call was held at its clock read; pre = the reading when it was released, now = its instant
+	Inner   string     `json:"inner"` // what was interposed while it was held
 	Pre     absReading `json:"pre"`
 	Post    absReading `json:"post"`
 	Ret     absReading `json:"ret"`
@@ -114,7 +196,7 @@ func runMeter(raw json.RawMessage, out *hx.Out) {
 	w := decode[meterWalk](raw)
 	clk := &tickClock{now: 10}
 	var m *meterpb.Model
-	o := meterObs{Model: "meter", Walk: w.N, Op: "New", HasInit: w.Cfg.HasInit, Now: 10, Pre: w.Cfg.Init, Err: "OK"}
+	o := meterObs{Model: "meter", Walk: w.N, Op: "New", HasInit: w.Cfg.HasInit, Now: 10, Pre: w.Cfg.Init, Err: "OK", Inner: "None"}
 	o.Panic = hx.Catch(func() {
 		opts := []resource.Option{resource.WithClock(clk)}
 		if w.Cfg.HasInit {
@@ -129,20 +211,21 @@ func runMeter(raw json.RawMessage, out *hx.Out) {
 	if m == nil {
 		return
 	}
-	for i, op := range w.Ops {
-		o := meterObs{Model: "meter", Walk: w.N, Step: i + 1, Op: op.Op, HasInit: w.Cfg.HasInit, V: op.V, Err: "OK"}
-		o.Now = clk.advance(op.Dt)
+	// one atomic call = one line
+	call := func(step int, op string, dt, v int) meterObs {
+		o := meterObs{Model: "meter", Walk: w.N, Step: step, Op: op, HasInit: w.Cfg.HasInit, V: v, Err: "OK", Inner: "None"}
+		o.Now = clk.advance(dt)
 		o.Pre = meterRead(m)
 		o.Panic = hx.Catch(func() {
 			var res *traits.MeterReading
 			var err error
-			switch op.Op {
+			switch op {
 			case "Record":
-				res, err = m.RecordReading(float32(op.V))
+				res, err = m.RecordReading(float32(v))
 			case "Reset":
 				res, err = m.Reset()
 			default:
-				hx.Fatal("meter: unknown op %q", op.Op)
+				hx.Fatal("meter: unknown op %q", op)
 			}
 			o.Err = hx.Code(err)
 			if res != nil {
@@ -150,6 +233,46 @@ func runMeter(raw json.RawMessage, out *hx.Out) {
 			}
 		})
 		o.Post = meterRead(m)
+		return o
+	}
+	for i, op := range w.Ops {
+		if op.Op != "RecordDuring" {
+			out.Write(call(i+1, op.Op, op.Dt, op.V))
+			continue
+		}
+		// RecordReading held at its clock read, another client's call in between
+		o := meterObs{Model: "meter", Walk: w.N, Step: i + 1, Op: "Record", HasInit: w.Cfg.HasInit, V: op.V, Err: "OK", Inner: op.Inner}
+		clk.advance(op.Dt)
+		o.Pre = meterRead(m)
+		var inner []meterObs
+		at, ok := clk.during(func() {
+			o.Panic = hx.Catch(func() {
+				res, err := m.RecordReading(float32(op.V))
+				o.Err = hx.Code(err)
+				if res != nil {
+					o.Ret = absReadingOf(res)
+				}
+			})
+		}, func(at int) {
+			if op.Inner != "None" {
+				inner = append(inner, call(i+1, op.Inner, op.Dt2, op.V2))
+			}
+			o.Pre = meterRead(m)
+		})
+		if !ok {
+			continue // read the clock under a lock the other call needs: order unknown, step not judged
+		}
+		for _, l := range inner {
+			out.Write(l)
+		}
+		o.Conc, o.Now = at >= 0, at
+		if at < 0 { // finished without reading the clock: an ordinary line, judged against the clock as it stands
+			o.Now, o.Inner = clk.current(), "None"
+		}
+		o.Post = meterRead(m)
 		out.Write(o)
+		if at < 0 && op.Inner != "None" {
+			out.Write(call(i+1, op.Inner, op.Dt2, op.V2))
+		}
 	}
 }
